@@ -279,6 +279,11 @@ fn injection_campaign(tape: &[u8], ctx: &mut Ctx, run: &mut Runner) -> Judged {
         ctx.exclude("base-program-not-ok");
         return Ok(());
     }
+    if !crate::fragment::check(&base) {
+        // second guard against generator slips: only base programs the static checker vouches for
+        ctx.exclude("base-program-outside-the-fragment(static check)");
+        return Ok(());
+    }
     let case0 = || json!({"tape": hex(tape), "source": render::pretty(&base), "ir": serde_json::to_value(&base).unwrap()});
     ctx.label("base-program");
     judge_cli(&base, &rb, run, false, ctx, &case0, "un-injected base program")?;
